@@ -3,7 +3,10 @@ of the chunk reader leaves the shared state in a variant whose row returns
 Ready(None) without data; (R2) the one-shot body's payload is taken; (R3) the
 length-checking stream yields only None/Err after a terminal row when its inner
 stream stays finished; (R4) the multipart stream's object invariant
-(`h <= n and (cur is Some => p = 1 and h < n)`, position read as 2h+p) is
+(`h <= n and (cur is Some => p = 1 and h < n)`; the position (h, p) is read from the
+packed integer 2h+p, from an index plus a two-valued phase, or from an enum
+{headers(h), body(h), trailer, end} whose variants are classified by what the step
+does in each of them) is
 established by the constructor, preserved by every loop turn and return, makes
 both index operations in bounds, and every terminal post-state is absorbing
 (re-analysis from that state yields only None/Err and reaches no unprovable
